@@ -1347,6 +1347,7 @@ impl BufferParser for Parser {
                             1
                         };
                         (0..num).for_each(|_| caret.set_x_position(buf.terminal_state.next_tab_stop(caret.get_position().x)));
+                        buf.terminal_state.limit_caret_pos(buf, caret);
                         return Ok(CallbackAction::Update);
                     }
                     'Z' => {
